@@ -18,7 +18,7 @@ RULE = ('Hypothesis-generated small libraries (1..3 contigs, 1..10 molecule spec
         'at that boundary leaves on disk). After each run <output>.status.txt is compared with the output: success text '
         'only if the BAM exists, reads to EOF, is coordinate sorted, indexed and holds every input record (C05 oracle); a '
         'run that was made to fail must not report success (a swallowed cleanup failure may, if the output is valid). '
-        'One evaluation = one library with all its failure points; non-trivial: a failure point after the first record '
+        'Additionally a history: a successful run followed by a run to the same output path that fails before tagging starts (invalid method, -region_start without -region_end). One evaluation = one library with all its failure points; non-trivial: a failure point after the first record '
         'was written and before the pipeline end was exercised (always true when the library yields >=2 molecules).')
 ASSUMPTIONS = ['kills are modelled at step boundaries, not inside htslib', 'a dying pool worker makes multiprocessing.Pool wait forever (liveness, not covered): worker failures are exceptions',
                'pysam/htslib trusted']
@@ -233,6 +233,29 @@ def eval_case(case):
                     out.bad('%s:no-status-file' % where, 'failure at %r' % (point,))
                 if len(out.violations) > 8:
                     break
+        # ---- history: a successful run followed by a run to the SAME output path that fails before tagging starts
+        # (argument mistakes); the status of the first run must not survive
+        raised, status, _ = run_once(case, d, ('none', -1), 'exception')
+        if status == SUCCESS:
+            bam_in, bam_out = os.path.join(d, 'in.bam'), os.path.join(d, 'out.bam')
+            for label, extra in (('bad-method', None), ('region-start-without-end', ['-region_start', '5'])):
+                try:
+                    if extra is None:
+                        tagrun.run_tagger(bam_in, bam_out, 'no_such_method', multiprocess=run['mode'] == 'multi', threads=run['threads'], pool='det')
+                    else:
+                        tagrun.run_tagger(bam_in, bam_out, run['method'], multiprocess=run['mode'] == 'multi', threads=run['threads'], pool='det', extra=extra)
+                    failed = False
+                except BaseException:
+                    failed = True
+                st2 = tagrun.status_text(bam_out)
+                n_runs += 1
+                if failed and st2 == SUCCESS:
+                    probs = output_valid(case, d, contigs, records, truth)
+                    if probs:
+                        out.bad('%s:second-run:%s:stale-success-status' % (mode, label),
+                                'a run that failed before tagging left the success status of the previous run next to: %s' % probs[0][1][:200])
+                # restore a successful state for the next sub-case
+                raised, status, _ = run_once(case, d, ('none', -1), 'exception')
         seen = {}
         for s, m in out.violations:
             seen.setdefault(s, m)
